@@ -3,6 +3,8 @@ package protobuild
 import (
 	"context"
 	"fmt"
+	"path"
+	"sort"
 	"strings"
 
 	"github.com/pentops/j5/internal/protosrc"
@@ -105,6 +107,18 @@ func (rr *dependencyResolver) listPackageFiles(_ context.Context, pkgName string
 	}
 
 	files := rr.deps.ListDependencyFiles(root)
+	// The dependency set matches by prefix and in no particular order: keep the
+	// files of the package's own directory (foo/v1, not foo/v1beta1 or
+	// foo/v1/service), in a fixed order.
+	filtered := make([]string, 0, len(files))
+	for _, f := range files {
+		if path.Dir(f) != root {
+			continue
+		}
+		filtered = append(filtered, f)
+	}
+	files = filtered
+	sort.Strings(files)
 	if len(files) == 0 {
 		return nil, fmt.Errorf("no files for package at %s", root)
 	}
